@@ -273,3 +273,97 @@ def callable_passed_to(ctx, finfo, callee_suffix, pos=0):
     if not isinstance(a, ast.Name):
         raise AnalysisError('%s hands %s to %s (not a named local function)' % (finfo.qualname, unparse(a)[:40], callee_suffix))
     return ctx.func('%s:%s.%s' % (finfo.module.name, finfo.qualname, a.id)), calls[0]
+
+
+# ---------------------------------------------------------------- pure helper expansion
+def _is_pure_helper(fnode):
+    """a function made of plain assignments, ifs and returns only (no loops, stores through attributes/subscripts, try, with)"""
+    for n in walk_no_nested(fnode):
+        if isinstance(n, (ast.For, ast.While, ast.Try, ast.With, ast.AugAssign, ast.Delete, ast.Global, ast.Nonlocal, ast.Yield, ast.YieldFrom)):
+            return False
+        if isinstance(n, ast.Assign) and not all(isinstance(tg, ast.Name) for tg in n.targets):
+            return False
+        if isinstance(n, ast.Expr) and not isinstance(n.value, ast.Constant):
+            return False
+    return True
+
+
+def helper_value(ctx, finfo, callee_name, args, kws, depth=2):
+    """the value of a call to a *pure* helper of the analysed package, as a conditional-expression term over the caller's
+    argument terms (None when the callee is not a pure mystic function): lets a rule see through an extracted helper"""
+    r = ctx.model.resolve_in_func(finfo, callee_name) if finfo is not None else None
+    if not r or r[0] != 'func':
+        return None
+    g = r[1]
+    if g.cls is not None or not _is_pure_helper(g.node):
+        return None
+    a = g.node.args
+    if a.vararg or a.kwarg or a.kwonlyargs:
+        return None
+    params = [x.arg for x in a.posonlyargs + a.args]
+    if len(args) > len(params):
+        return None
+    env = dict(zip(params, args))
+    for k, v in kws:
+        if k in params and k not in env:
+            env[k] = v
+    defaults = a.defaults
+    for p_, d in zip(params[len(params) - len(defaults):], defaults):
+        if p_ not in env:
+            env[p_] = T.term(d)
+    if set(params) - set(env):
+        return None
+    ctx.touch(g)
+    rts = return_terms(g.node, builder=T.Builder(env=env))
+    if not rts:
+        return None
+    out = None
+    for p, term, b, conds in reversed(rts):
+        cond = None
+        for c, tr, _ in conds:
+            lit = c if tr else ('not', c)
+            cond = lit if cond is None else ('and', cond, lit)
+        out = term if (out is None or cond is None) else ('ifexp', cond, term, out)
+    return out
+
+
+def expand_helpers(ctx, finfo, term, depth=2):
+    """replace calls to pure mystic helpers inside `term` by their values (bounded depth)"""
+    if depth <= 0 or not isinstance(term, tuple) or not term:
+        return term
+    if term[0] == 'call' and isinstance(term[1], tuple) and term[1][:1] == ('name',):
+        args = tuple(expand_helpers(ctx, finfo, x, depth) for x in term[2])
+        v = helper_value(ctx, finfo, term[1][1], args, term[3], depth)
+        if v is not None:
+            return expand_helpers(ctx, finfo, v, depth - 1)
+        return ('call', term[1], args, term[3])
+    return tuple(expand_helpers(ctx, finfo, x, depth) if isinstance(x, tuple) else x for x in term)
+
+
+def decided(atom, lits):
+    """True / False / None: what the path literals entail about `atom` (truth table over their atoms; `is not` read as not `is`)"""
+    import itertools
+    from .. import pathcond as PC
+
+    def norm(t_):
+        if isinstance(t_, tuple) and t_ and t_[0] == 'cmp' and t_[1] == 'isnot':
+            return ('not', ('cmp', 'is') + t_[2:])
+        if isinstance(t_, tuple) and t_ and t_[0] in ('and', 'or', 'not'):
+            return (t_[0],) + tuple(norm(x) for x in t_[1:])
+        return t_
+    fs = [norm(c) if tr else ('not', norm(c)) for c, tr in lits if not (c[0] == 'const')]
+    atoms = [atom]
+    for f_ in fs:
+        for a in PC.leaves(f_):
+            if a not in atoms:
+                atoms.append(a)
+    if len(atoms) > 12:
+        return None
+    seen = set()
+    for bits in itertools.product((False, True), repeat=len(atoms)):
+        val = dict(zip(atoms, bits))
+        if all(PC.ev(f_, val) for f_ in fs):
+            seen.add(val[atom])
+    return seen.pop() if len(seen) == 1 else None
+
+
